@@ -213,9 +213,12 @@ func checkMain(args []string) int {
 		return 2
 	}
 	tier := tierOf(args)
+	// VERIF_SEED is recorded in the evidence but does not select units: every run of a tier explores the same
+	// unit set, the one whose verdict on the unchanged tree is known (a seed-dependent subset could contain a
+	// unit nobody has ever run)
 	seed, _ := strconv.Atoi(os.Getenv("VERIF_SEED"))
 	t0 := time.Now()
-	units := p.Build(tier, seed)
+	units := p.Build(tier, 0)
 	if only := os.Getenv("GOSYM_ONLY"); only != "" {
 		// debugging aid: keep the units whose id contains the given text
 		var sel []Unit
@@ -269,6 +272,7 @@ type replayCase struct {
 	// expectations
 	WantFail string   `json:"want_fail,omitempty"` // assertion id expected to fail
 	Notes    []string `json:"notes,omitempty"`     // notes recorded by the interpreter on this path
+	Msg      string   `json:"msg,omitempty"`       // message of the failed assertion / panic in the interpreter
 }
 
 type replayOut struct {
@@ -434,7 +438,7 @@ func report(p *propSpec, tier string, seed int, results []UnitResult, t0 time.Ti
 			continue
 		}
 		seenKey[key] = true
-		rc := replayCase{ID: fmt.Sprintf("viol%d", i), Pkg: v.u.Pkg, Harness: v.u.Harness, Params: v.u.Params, Model: v.v.Model, WantFail: v.v.ID, Notes: v.v.Detail}
+		rc := replayCase{ID: fmt.Sprintf("viol%d", i), Pkg: v.u.Pkg, Harness: v.u.Harness, Params: v.u.Params, Model: v.v.Model, WantFail: v.v.ID, Notes: v.v.Detail, Msg: v.v.Msg}
 		cases = append(cases, rc)
 		vrecs = append(vrecs, vrec{key: key, u: v.u, v: v.v})
 	}
@@ -517,7 +521,7 @@ func report(p *propSpec, tier string, seed int, results []UnitResult, t0 time.Ti
 					if hit {
 						reproduced[c.ID] = true
 					} else {
-						broken = append(broken, fmt.Sprintf("counterexample %s (%s, %v) did not reproduce natively: failures=%v panic=%q notes=%v", c.ID, c.WantFail, c.Params, o.Failures, o.Panic, o.Notes))
+						broken = append(broken, fmt.Sprintf("counterexample %s (%s, %v) did not reproduce natively: failures=%v panic=%q notes=%v model=%v interpreter said: %s", c.ID, c.WantFail, c.Params, o.Failures, o.Panic, o.Notes, c.Model, c.Msg))
 					}
 					continue
 				}
